@@ -86,7 +86,7 @@ def judge_report(wstat, out, rep):
 # ------------------------------------------------------------------ (b) real qmail-remote over loopback
 
 def reply_bytes(a, ph):
-    c = b"%03d" % a.code
+    c = rm.GARBAGE[a.code - rm.GARBAGE_BASE] if rm.is_garbage(a.code) else b"%03d" % a.code
     if a.form == 1:
         return c + b"-first line\r\n" + c + b"-second\r\n" + c + b" last " + ph.encode() + b"\r\n"
     if a.form == 2:
@@ -122,6 +122,13 @@ def e2e_cases(tier, ne2e):
             for form in ((0, 1) if code in (451, 550) else (0,)):
                 cases.append((n, {ph: rm.Action("reply", code, form)}, "core"))
         cases.append((n, {ph: rm.Action("eof", 0, 0)}, "core"))
+    # replies that do not start with a digit at every phase: never an acceptance (seed c09-s8)
+    for ph in rm.phases(n):
+        if rm.phase_kind(ph) == "data":
+            continue        # the sink opens its data phase on 3xx only
+        for gk in range(len(rm.GARBAGE)):
+            if tier == "thorough" or (gk + len(ph)) % 3 == 0:
+                cases.append((n, {ph: rm.Action("reply", rm.GARBAGE_BASE + gk, 0)}, "garbage-code"))
     cases.append((3, {"rcpt0": rm.Action("reply", 550, 0), "rcpt1": rm.Action("reply", 451, 3), "rcpt2": rm.Action("reply", 250, 2)}, "core"))
     cases.append((3, {"rcpt0": rm.Action("reply", 550, 0), "rcpt1": rm.Action("reply", 451, 0), "rcpt2": rm.Action("reply", 552, 0)}, "core"))
     cases.append((3, {"rcpt0": rm.Action("reply", 451, 0), "rcpt1": rm.Action("reply", 452, 1), "rcpt2": rm.Action("reply", 421, 0)}, "core"))
